@@ -135,8 +135,34 @@ POSTCONDITION Accepted
 CHECK_DEADLOCK FALSE
 '''
 
-def validate(ctx, spec, tracefile, enforce, consts='', timeout=1200):
-    """TLC trace validation. Returns dict(accepted, line, failed, known_used, states)."""
+def validate(ctx, spec, tracefile, enforce, consts='', timeout=1200, chunk=0):
+    """TLC trace validation. Returns dict(accepted, line, failed, known_used, states).
+    chunk > 0: the file is validated in pieces of at most about that many lines, cut at reset events (every trace
+    specification starts afresh at a reset); TLC cannot follow behaviours longer than 65535 states once its queue
+    spills to disk, and a history with silent steps is longer than its number of lines."""
+    if chunk:
+        lines = [l for l in read_lines(tracefile) if l.strip()]
+        if len(lines) > chunk:
+            total = dict(accepted=True, line=None, failed=[], known_used=[], states=0, out='', wall=0.0)
+            start = 0
+            t0 = time.time()
+            while start < len(lines):
+                end = min(start + chunk, len(lines))
+                while end < len(lines) and '"ev":"reset"' not in lines[end]:
+                    end += 1
+                part = tracefile + '.part'
+                open(part, 'w').write('\n'.join(lines[start:end]) + '\n')
+                r = validate(ctx, spec, part, enforce, consts=consts, timeout=max(60, timeout - int(time.time() - t0)))
+                total['known_used'] += r['known_used']
+                total['states'] += r['states']
+                total['out'] = r['out']
+                if not r['accepted']:
+                    total.update(accepted=False, line=start + r['line'], failed=r['failed'])
+                    break
+                start = end
+            total['wall'] = time.time() - t0
+            os.remove(part)
+            return total
     enf = ', '.join('"%s"' % e for e in enforce)
     kn = ', '.join('"%s"' % k for k in known_ids(ctx))
     ctext = consts.replace('{Known}', '{' + kn + '}')
@@ -274,7 +300,7 @@ def run_trace_family(ctx, fam, driver):
         if 'prepare' in fam:      # spec -> code: TLC generates the behaviours the driver replays
             env = dict(env or {}, **fam['prepare'](ctx, fam, seed))
         d = run_driver(ctx, driver, fam['profile'], tf, seed, args=args, timeout=fam.get('driver_timeout', 1500), env=env)
-        res = validate(ctx, spec, tf, enforce, consts=fam.get('consts', ''), timeout=fam.get('tlc_timeout', 1500))
+        res = validate(ctx, spec, tf, enforce, consts=fam.get('consts', ''), timeout=fam.get('tlc_timeout', 1500), chunk=fam.get('chunk', 0))
         ntr, nev = account_trace(ctx, tf, sig=fam.get('sig'), trace_event=fam.get('trace_event', 'reset'))
         note_known(ctx, res['known_used'])
         ctx.cov['trace_runs'].append(dict(profile=fam['profile'], seed=seed, traces=ntr, events=nev, accepted=res['accepted'],
@@ -290,7 +316,7 @@ def run_trace_family(ctx, fam, driver):
                 for attempt in range(3):
                     tf2 = tf + '.again'
                     run_driver(ctx, driver, fam['profile'], tf2, seed, args=args, timeout=fam.get('driver_timeout', 1500), env=env)
-                    res2 = validate(ctx, spec, tf2, enforce, consts=fam.get('consts', ''), timeout=fam.get('tlc_timeout', 1500))
+                    res2 = validate(ctx, spec, tf2, enforce, consts=fam.get('consts', ''), timeout=fam.get('tlc_timeout', 1500), chunk=fam.get('chunk', 0))
                     if not res2['accepted']:
                         again = True
                         break
